@@ -158,6 +158,7 @@ structure BState where
   pie : PieSt := {}
   sess : Option Sess := none      -- live session
   dead : Bool := false            -- session aborted (dropped by unwinding)
+  aborted : Option Sess := none   -- the session state at the abort point (the caller may go on using the session: `retry`)
   out : Array String := #[]
 
 def BState.put (b : BState) (l : String) : BState := { b with out := b.out.push l }
@@ -191,7 +192,7 @@ def finishOp (b : BState) (s : Sess) (n0 : Nat) (r : Res String) : BState :=
   let b := b.put "composite same"
   match r with
   | .ok txt => { b.put txt with sess := some s, pie := s.toPie }
-  | .abort a => { b.put s!"abort {showAbort a}" with sess := none, dead := true, pie := s.toPie }
+  | .abort a => { b.put s!"abort {showAbort a}" with sess := none, dead := true, pie := s.toPie, aborted := some s }
 
 def natList (l : List String) : Option (List Nat) := l.mapM (·.toNat?)
 
@@ -210,7 +211,11 @@ def stepB (b : BState) (line : String) : Option BState :=
     if b.sess.isSome || b.dead then none else pure { b with pie := b.pie.setContent r none }
   | ["session"] =>
     if b.sess.isSome || b.dead then none
-    else pure ({ b with sess := some b.pie.newSession }.put "op session")
+    else pure ({ b with sess := some b.pie.newSession, aborted := none }.put "op session")
+  | ["retry"] =>
+    -- the caller caught the panic and goes on using the SAME session object: its state is the state at the abort point
+    if b.dead then pure ({ b with sess := b.aborted, dead := false }.put "op retry")
+    else if b.sess.isSome then pure (b.put "op retry") else none
   | ["req", t] => do
     let t ← t.toNat?
     let b := b.put s!"op req {t}"
